@@ -40,4 +40,12 @@ PROPS = {
         "level_note": "Trusted: Coq kernel; list semantics of the underlying SlidingDeque (that is C15's theorem); std's binary_search_by returns the unique index with an Equal key on a strictly sorted slice; for the whole-item convention the order must ignore the erased flag (DESIGN.md O4).",
         "assumptions": ["slice::binary_search_by contract on strictly sorted slices", "mark_erased preserves the comparison key (true by construction for (Key, Option<Value>))"],
     },
+    "C12": {
+        "families": ["tlvv"],
+        "n": {"quick": {"tlvv": 8000}, "thorough": {"tlvv": 200000}},
+        "rule": "truncation of a valid message at every length; all word-aligned headers with N in {0,1,2} over words {0,1,2} with 0-3 trailing bytes; structured random headers (N in 0..9, N huge / near 2^32, offsets equal / decreasing / past the payload / huge, tags equal / decreasing, trailing bytes, truncation) and raw random bytes; accessors probed at indices 0..N+2 and usize::MAX and at present, absent and neighbouring tags; distinct = distinct case line; non-trivial = accepted message with at least one pair",
+        "level_text": "Theorems C12_new_total / C12_new_accepts_iff / C12_get_value / C12_values_tile / C12_get_iter_agree / C12_find: in the byte-level faithful model of MessageView (every slice expression a Panic branch) new never panics on any byte string and accepts exactly the well-formed ones; on accepted input no accessor panics, value i is the i-th slice of the bytes after the header, the values concatenate to those bytes, get/iter/tags agree, every index >= N yields nothing, and find returns the value at an index whose tag is the wanted one (for whichever index binary search picks). Tied to the code by structured, truncated and random byte strings with accessor probes, debug and release.",
+        "level_note": "Trusted: Coq kernel; the hand-written byte-level model; std's binary_search contract (returns some index holding the tag iff present) is an oracle whose answer the check validates against the tag array; 64-bit usize.",
+        "assumptions": ["slice::binary_search returns Ok(j) with tags[j] == wanted iff the tag is present", "usize is 64 bits"],
+    },
 }
